@@ -11,6 +11,7 @@
    value the external estimator (beorn7/perks) returns, and the concurrent clause on real goroutines. *)
 From Coq Require Import ZArith List Bool Sorted Permutation.
 From Verif Require Import Base.F64 Base.Str Model.SummaryWindow Proofs.C06_proofs.
+From Verif Require Gen.Gen_Consts Proofs.Gen_tie.
 Import ListNotations.
 Open Scope Z_scope.
 
@@ -116,3 +117,11 @@ Example window_example :
   end = [(3, map to_bits [of_Z 1; of_Z 2; of_Z 3]); (4, map to_bits [of_Z 1; of_Z 2; of_Z 3; of_Z 4]);
          (4, map to_bits [of_Z 4]); (4, [])].
 Proof. exact C06_proofs.example_run. Qed.
+
+(* the defaults and the reserved label of the model are the ones of the Go source (regenerated on every run) *)
+Theorem summary_defaults_match_source :
+  SummaryWindow.def_max_age = Verif.Gen.Gen_Consts.def_max_age_ns /\
+  SummaryWindow.def_age_buckets = Verif.Gen.Gen_Consts.def_age_buckets /\
+  SummaryWindow.def_buf_cap = Verif.Gen.Gen_Consts.def_buf_cap /\
+  SummaryWindow.quantile_label = Verif.Gen.Gen_Consts.quantile_label.
+Proof. exact Verif.Proofs.Gen_tie.summary_defaults_match_source_lemma. Qed.
